@@ -1,0 +1,44 @@
+//go:build verif
+
+package reader
+
+import "github.com/zilliztech/milvus-cdc/core/api"
+
+// VerifHandlerInfo is a copy of one channel handler's channels.
+type VerifHandlerInfo struct {
+	Key            string
+	SourcePChannel string
+	TargetPChannel string
+	Started        bool
+}
+
+// VerifChannelAssignment reads, under the manager's own channel lock, which of the given (source, target) physical
+// channel pairs the manager's channel mapping holds (through the mapping's public predicate), the mapping's quota
+// and the channels of every handler. Read-only.
+func VerifChannelAssignment(m api.ChannelManager, sources, targets []string) (sourceKey bool, quota int, pairs [][2]string, handlers []VerifHandlerInfo, ok bool) {
+	r, isManager := m.(*replicateChannelManager)
+	if !isManager {
+		return false, 0, nil, nil, false
+	}
+	r.channelLock.RLock()
+	defer r.channelLock.RUnlock()
+	sourceKey = r.channelMapping.UsingSourceKey()
+	quota = r.channelMapping.AverageCnt()
+	for _, s := range sources {
+		for _, t := range targets {
+			if r.channelMapping.CheckKeyExist(s, t) {
+				pairs = append(pairs, [2]string{s, t})
+			}
+		}
+	}
+	for k, h := range r.channelHandlerMap {
+		started := false
+		select {
+		case <-h.startReadChan:
+			started = true
+		default:
+		}
+		handlers = append(handlers, VerifHandlerInfo{Key: k, SourcePChannel: h.sourcePChannel, TargetPChannel: h.targetPChannel, Started: started})
+	}
+	return sourceKey, quota, pairs, handlers, true
+}
